@@ -341,6 +341,13 @@ where
     // If the value increased, then the initial guess must have been low.
     // Repeat until we reverse course.
     while x < xn {
+        #[cfg(num_bigint_verif)]
+        {
+            crate::verif_probe::hit(40);
+            if xn.bits() > max_bits {
+                crate::verif_probe::hit(42);
+            }
+        }
         // Sometimes an increase will go way too far, especially with large
         // powers, and then take a long time to walk back.  We know an upper
         // bound based on bit size, so saturate on that.
@@ -354,6 +361,8 @@ where
 
     // Now keep repeating while the estimate is decreasing.
     while x > xn {
+        #[cfg(num_bigint_verif)]
+        crate::verif_probe::hit(41);
         x = xn;
         xn = f(&x);
     }
@@ -385,6 +394,8 @@ impl Roots for BigUint {
         let bits = self.bits();
         let n64 = u64::from(n);
         if bits <= n64 {
+            #[cfg(num_bigint_verif)]
+            crate::verif_probe::hit(39);
             return BigUint::one();
         }
 
@@ -398,6 +409,8 @@ impl Roots for BigUint {
         #[cfg(feature = "std")]
         let guess = match self.to_f64() {
             Some(f) if f.is_finite() => {
+                #[cfg(num_bigint_verif)]
+                crate::verif_probe::hit(37);
                 use num_traits::FromPrimitive;
 
                 // We fit in `f64` (lossy), so get a better initial guess from that.
@@ -405,6 +418,8 @@ impl Roots for BigUint {
             }
             _ => {
                 // Try to guess by scaling down such that it does fit in `f64`.
+                #[cfg(num_bigint_verif)]
+                crate::verif_probe::hit(38);
                 // With some (x * 2ⁿᵏ), its nth root ≈ (ⁿ√x * 2ᵏ)
                 let extra_bits = bits - (f64::MAX_EXP as u64 - 1);
                 let root_scale = Integer::div_ceil(&extra_bits, &n64);
@@ -417,6 +432,8 @@ impl Roots for BigUint {
             }
         };
 
+        #[cfg(all(num_bigint_verif, not(feature = "std")))]
+        crate::verif_probe::hit(44);
         #[cfg(not(feature = "std"))]
         let guess = BigUint::one() << max_bits;
 
@@ -446,6 +463,8 @@ impl Roots for BigUint {
         #[cfg(feature = "std")]
         let guess = match self.to_f64() {
             Some(f) if f.is_finite() => {
+                #[cfg(num_bigint_verif)]
+                crate::verif_probe::hit(37);
                 use num_traits::FromPrimitive;
 
                 // We fit in `f64` (lossy), so get a better initial guess from that.
@@ -453,6 +472,8 @@ impl Roots for BigUint {
             }
             _ => {
                 // Try to guess by scaling down such that it does fit in `f64`.
+                #[cfg(num_bigint_verif)]
+                crate::verif_probe::hit(38);
                 // With some (x * 2²ᵏ), its sqrt ≈ (√x * 2ᵏ)
                 let extra_bits = bits - (f64::MAX_EXP as u64 - 1);
                 let root_scale = (extra_bits + 1) / 2;
@@ -461,6 +482,8 @@ impl Roots for BigUint {
             }
         };
 
+        #[cfg(all(num_bigint_verif, not(feature = "std")))]
+        crate::verif_probe::hit(44);
         #[cfg(not(feature = "std"))]
         let guess = BigUint::one() << max_bits;
 
@@ -487,6 +510,8 @@ impl Roots for BigUint {
         #[cfg(feature = "std")]
         let guess = match self.to_f64() {
             Some(f) if f.is_finite() => {
+                #[cfg(num_bigint_verif)]
+                crate::verif_probe::hit(37);
                 use num_traits::FromPrimitive;
 
                 // We fit in `f64` (lossy), so get a better initial guess from that.
@@ -494,6 +519,8 @@ impl Roots for BigUint {
             }
             _ => {
                 // Try to guess by scaling down such that it does fit in `f64`.
+                #[cfg(num_bigint_verif)]
+                crate::verif_probe::hit(38);
                 // With some (x * 2³ᵏ), its cbrt ≈ (∛x * 2ᵏ)
                 let extra_bits = bits - (f64::MAX_EXP as u64 - 1);
                 let root_scale = (extra_bits + 2) / 3;
@@ -502,6 +529,8 @@ impl Roots for BigUint {
             }
         };
 
+        #[cfg(all(num_bigint_verif, not(feature = "std")))]
+        crate::verif_probe::hit(44);
         #[cfg(not(feature = "std"))]
         let guess = BigUint::one() << max_bits;
 
